@@ -642,7 +642,7 @@ func (r *runner) deftx(tid, hs string, kv map[string]string) string {
 	return "ok"
 }
 
-func (r *runner) evInsert(d *txDef, bm *wtxmgr.BlockMeta, cr []credSpec) (bool, error) {
+func (r *runner) evInsert(force bool, d *txDef, bm *wtxmgr.BlockMeta, cr []credSpec) (bool, error) {
 	var exists bool
 	err := r.update(func(ns walletdb.ReadWriteBucket) error {
 		ex, err := r.store.InsertTxCheckIfExists(ns, d.rec, bm)
@@ -650,7 +650,7 @@ func (r *runner) evInsert(d *txDef, bm *wtxmgr.BlockMeta, cr []credSpec) (bool, 
 			return err
 		}
 		exists = ex
-		if ex {
+		if ex && !force {
 			return nil
 		}
 		for _, c := range cr {
@@ -682,15 +682,17 @@ func (r *runner) exec(pos []string, kv map[string]string, v func(string, ...inte
 		d := r.txs[pos[2]]
 		bm, ok := parseBlockMeta(pos[3:])
 		cr, ok2 := parseCredits(kv["cr"])
-		if d == nil || !ok || !ok2 || !((pos[1] == "seen" && bm == nil) || (pos[1] == "conf" && bm != nil)) {
+		kind := strings.TrimSuffix(pos[1], "!")
+		if d == nil || !ok || !ok2 || !((kind == "seen" && bm == nil) || (kind == "conf" && bm != nil)) {
 			return "bad-op"
 		}
-		ex, err := r.evInsert(d, bm, cr)
+		// "seen!"/"conf!": AddCredit is called after InsertTx whatever InsertTx answered
+		ex, err := r.evInsert(strings.HasSuffix(pos[1], "!"), d, bm, cr)
 		if err != nil {
 			r.cons = false
 			return "err " + errCode(err)
 		}
-		r.applyEv(event{kind: pos[1], tx: d, bm: bm, credits: cr})
+		r.applyEv(event{kind: kind, tx: d, bm: bm, credits: cr})
 		return fmt.Sprintf("ok exists=%s cons=%s", b01(ex), b01(r.cons))
 	case "inserttx":
 		if len(pos) < 2 {
